@@ -26,5 +26,16 @@ if command -v lean >/dev/null 2>&1; then
   fi
   rm -f /tmp/verif-lean.$$
   if grep -v "^ *Check:" prelude/Prelude.lean | grep -qw sorry; then echo "setup: Prelude.lean contains sorry" >&2; exit 1; fi
+  # the remaining axioms (scalar encoders, element kinds, boxing, CRC recursions) hold in one concrete model
+  # (Lean 4 + three Mathlib modules; ~3 s warm, ~45 s the first time)
+  if ! lean prelude/Model.lean >/tmp/verif-lean.$$ 2>&1; then
+    echo "setup: prelude/Model.lean does not check:" >&2; head -20 /tmp/verif-lean.$$ >&2; rm -f /tmp/verif-lean.$$; exit 1
+  fi
+  rm -f /tmp/verif-lean.$$
+  if grep -E '^\s*(axiom|sorry|admit)\b|native_decide' prelude/Model.lean | grep -v '^ *--' | grep -qv 'NOT native_decide\|No `sorry`'; then echo "setup: Model.lean contains sorry/axiom/native_decide" >&2; exit 1; fi
+  # every named axiom of the prelude is a theorem of that name in one of the two files
+  for a in $(grep -o ':named ax_[a-z0-9_]*' prelude/prelude.smt2 | sed 's/:named //'); do
+    grep -qE "^(theorem|lemma) $a\b" prelude/Prelude.lean prelude/Model.lean || { echo "setup: prelude axiom $a has no Lean theorem" >&2; exit 1; }
+  done
 fi
 echo "setup ok"
